@@ -326,7 +326,7 @@ func printC13(sc *c13Scenario, c *rt.Controller) {
 
 func runC13(seed int64, count, scheds, dfsBound, dfsCap int) {
 	rng := rand.New(rand.NewSource(seed))
-	for i := 0; i < count; i++ {
+	for i := 0; i < count && rt.StuckTotal < 3; i++ {
 		sc := genC13(rng)
 		if dfsBound > 0 {
 			n := 0
@@ -338,7 +338,7 @@ func runC13(seed int64, count, scheds, dfsBound, dfsCap int) {
 			})
 			continue
 		}
-		for s := 0; s < scheds; s++ {
+		for s := 0; s < scheds && rt.StuckTotal < 3; s++ {
 			st := &rt.Random{State: uint64(seed)*1000003 + uint64(i)*7919 + uint64(s)*104729 + 1, Stickiness: []int{0, 50, 80, 95}[s%4]}
 			c := runC13Scenario(sc, st)
 			emit("#case C13-%d-r%d", i, s)
